@@ -72,8 +72,21 @@ func genPeer(r *gen.Rand) connIn {
 		for i := range cn.ip {
 			cn.ip[i] = byte(r.Intn(256))
 		}
-		if n == 16 && r.Chance(1, 3) {
-			copy(cn.ip, []byte{0, 0, 0, 0, 0, 0, 0, 0, 0, 0, 0xff, 0xff})
+		if n == 16 {
+			switch r.Intn(6) {
+			case 0, 1:
+				copy(cn.ip, []byte{0, 0, 0, 0, 0, 0, 0, 0, 0, 0, 0xff, 0xff})
+			case 2: // NOT v4-mapped, but bytes 10-11 read ff ff (e.g. 2001:db8:1:2:0:ffff:a00:1)
+				cn.ip[10], cn.ip[11] = 0xff, 0xff
+				if r.Bool() {
+					copy(cn.ip[12:], net.ParseIP(gen.Pick(r, peerTexts[:24])).To16()[12:])
+				}
+			case 3: // v4-compatible ::a.b.c.d / NAT64 64:ff9b::a.b.c.d
+				copy(cn.ip, make([]byte, 12))
+				if r.Bool() {
+					copy(cn.ip, []byte{0, 0x64, 0xff, 0x9b})
+				}
+			}
 		}
 	} else {
 		cn.ip = parseIPBytes(r, gen.Pick(r, peerTexts))
@@ -110,9 +123,44 @@ func neighbour(r *gen.Rand, ip net.IP) net.IP {
 	return out
 }
 
+// lookalike returns a DIFFERENT address whose bytes embed (part of) the peer's: the low or high four
+// bytes of a v6 peer read as IPv4, a v4 peer embedded in a v6 address that is not v4-mapped.
+func lookalike(r *gen.Rand, peer net.IP) string {
+	if v4 := peer.To4(); v4 != nil {
+		switch r.Intn(6) {
+		case 0:
+			return "::" + v4.String() // v4-compatible, not mapped
+		case 1:
+			return "64:ff9b::" + v4.String()
+		case 2:
+			return fmt.Sprintf("2002:%02x%02x:%02x%02x::", v4[0], v4[1], v4[2], v4[3])
+		case 3:
+			return "2001:db8:1:2:0:ffff:" + v4.String()
+		case 4:
+			return "::ffff:0:" + v4.String()
+		default:
+			return net.IPv4(v4[3], v4[2], v4[1], v4[0]).String()
+		}
+	}
+	b := peer.To16()
+	if b == nil {
+		return "0.0.0.0"
+	}
+	switch r.Intn(4) {
+	case 0, 1:
+		return net.IPv4(b[12], b[13], b[14], b[15]).String()
+	case 2:
+		return net.IPv4(b[0], b[1], b[2], b[3]).String()
+	default:
+		return "::ffff:" + net.IPv4(b[12], b[13], b[14], b[15]).String()
+	}
+}
+
 func genProxyEntry(r *gen.Rand, peer net.IP) string {
 	is4 := peer.To4() != nil
-	switch r.Intn(14) {
+	switch r.Intn(16) {
+	case 14, 15:
+		return lookalike(r, peer)
 	case 0, 1: // the peer itself
 		return peer.String()
 	case 2: // other spelling of the peer
